@@ -11,9 +11,11 @@ _WORLDS = {
     "schnorr": "btcsim.worlds.w2_schnorr",
     "backend": "btcsim.worlds.w3_backend",
     "wire": "btcsim.worlds.w4_wire",
+    "hostile": "btcsim.worlds.w4b_hostile",
     "ceremony": "btcsim.worlds.w5_ceremony",
     "roles": "btcsim.worlds.w5b_roles",
     "taptree": "btcsim.worlds.w5c_taptree",
+    "units": "btcsim.worlds.w5d_units",
     "protocols": "btcsim.worlds.w6_protocols",
     "custody": "btcsim.worlds.w7_custody",
     "chain": "btcsim.worlds.w9_chain",
